@@ -50,6 +50,8 @@ type batch struct {
 type scenario struct {
 	targets []target
 	points  []delivery // the set of distinct points
+
+	sameContent bool // some identity has several points that differ only in time
 }
 
 const rootID = "inst"
@@ -122,13 +124,26 @@ func genScenario(t *rapid.T) scenario {
 		for _, id := range idents {
 			k := rapid.IntRange(1, 5).Draw(t, "npoints")
 			times := gen.DistinctTimes(t, k, "time")
-			for _, ns := range times {
+			// a quarter of the identities repeat one reading: the points differ in
+			// nothing but their time (a sensor re-sending the same value; a node
+			// re-sent with its unchanged edge points)
+			sameContent := k >= 2 && rapid.IntRange(0, 3).Draw(t, "sameContent") == 0
+			var first data.Point
+			for i, ns := range times {
 				p := data.Point{Type: id.typ, Key: id.key, Time: time.Unix(0, ns)}
 				if id.key == "0" && rapid.Bool().Draw(t, "blankKey") {
 					p.Key = ""
 				}
-				gen.PointFields(t, &p, ids)
+				if sameContent && i > 0 {
+					p.Value, p.Text, p.Data, p.Tombstone, p.Origin = first.Value, first.Text, first.Data, first.Tombstone, first.Origin
+				} else {
+					gen.PointFields(t, &p, ids)
+					first = p
+				}
 				sc.points = append(sc.points, delivery{T: tix, P: p})
+			}
+			if sameContent {
+				sc.sameContent = true
 			}
 		}
 	}
@@ -342,6 +357,9 @@ func TestPropNewestWins(t *testing.T) {
 		}
 		if len(sc.points) > 60 {
 			cls = append(cls, "batch>=50points")
+		}
+		if sc.sameContent {
+			cls = append(cls, "sameContentNewerTime")
 		}
 		nt := (rs.stale && rs.dupInBatch) || (rs2.stale && rs2.dupInBatch)
 		stats.Case(nt, stats.Digest(fmt.Sprint(sc.targets), len(sc.points), fmt.Sprint(d1)), cls...)
